@@ -12,6 +12,13 @@ package main
 //                                  JSON-equal (encoding/json decode, DeepEqual) to the Data sent; "-" otherwise
 //   R <rkind> <rarg> <term>     -> <kind>|<code>|<hex msg>|<hex data>      handler returns (value, err(term))
 //   N <rkind> <rarg> <term>     -> none | <code>|<hex msg>|<hex data>      same, sent as a notification
+//   K <mode> <rkind> <rarg> <term> -> <kind>|<code>|<hex msg>|<hex data>   as R, but the handler returns only after the
+//                                  server-side context of its own request is done.  mode: self = the handler calls
+//                                  Server.CancelRequest(req.ID()) itself; helper = a goroutine does and the handler waits
+//                                  for ctx.Done(); base = the context supplied by ServerOptions.NewContext is cancelled;
+//                                  deadline = that context has a deadline and the handler waits until it has passed;
+//                                  live = nothing is done (the same server, control).  "E?ctx:..." = the handler did not
+//                                  find its context in the state the mode asks for
 //   C <int32>                   -> <ErrorCode(Code(c).Err())>|<hex text or nil>
 //   W <recv> <code> <hexmsg> <hexdata> <vkind> <varg>
 //                               -> crash | retnil|<unchanged> | <same>|<unchanged>|<code>|<hex msg>|<hex data>
@@ -366,18 +373,103 @@ type c14Pair struct {
 	val any
 	err error
 
+	// family K: what the handler does to its own context before it returns
+	mode       string
+	deadline   time.Duration
+	baseCancel context.CancelFunc
+	ran        bool
+	ctxErr     error
+
 	unexpectedLosses int
 }
 
-func c14Start() *c14Pair {
+func c14Start() *c14Pair { return c14StartCtx(false) }
+
+// c14StartCtx starts the pair; withCtx installs a ServerOptions.NewContext under the
+// harness's control (family K).
+func c14StartCtx(withCtx bool) *c14Pair {
 	p := &c14Pair{}
 	cch, sch := channel.Direct()
+	var opts *jrpc2.ServerOptions
+	if withCtx {
+		opts = &jrpc2.ServerOptions{NewContext: func() context.Context {
+			switch p.mode {
+			case "base":
+				ctx, cancel := context.WithCancel(context.Background())
+				p.baseCancel = cancel
+				return ctx
+			case "deadline":
+				ctx, cancel := context.WithTimeout(context.Background(), p.deadline)
+				p.baseCancel = cancel
+				return ctx
+			}
+			return context.Background()
+		}}
+	}
 	p.srv = jrpc2.NewServer(handler.Map{
-		"t": func(ctx context.Context, req *jrpc2.Request) (any, error) { return p.val, p.err },
-	}, nil)
+		"t": func(ctx context.Context, req *jrpc2.Request) (any, error) {
+			if p.mode == "" {
+				return p.val, p.err
+			}
+			p.ran = true
+			wait := func() {
+				select {
+				case <-ctx.Done():
+				case <-time.After(5 * time.Second):
+				}
+			}
+			switch p.mode {
+			case "self":
+				jrpc2.ServerFromContext(ctx).CancelRequest(req.ID())
+				wait()
+			case "helper":
+				srv, id := jrpc2.ServerFromContext(ctx), req.ID()
+				go srv.CancelRequest(id)
+				wait()
+			case "base":
+				p.baseCancel()
+				wait()
+			case "deadline":
+				wait()
+			}
+			p.ctxErr = ctx.Err()
+			return p.val, p.err
+		},
+	}, opts)
 	p.srv.Start(sch)
 	p.cli = jrpc2.NewClient(cch, nil)
 	return p
+}
+
+// callCtx runs one call of family K.  The deadline mode is retried with a longer deadline
+// when the deadline passed before the handler was started (then invoke fails in
+// sem.Acquire and no handler error exists to be kept).
+func (p *c14Pair) callCtx(mode string, val any, err error, mayLose bool) string {
+	want := map[string]error{"self": context.Canceled, "helper": context.Canceled, "base": context.Canceled,
+		"deadline": context.DeadlineExceeded, "live": nil}
+	wantErr, ok := want[mode]
+	if !ok {
+		fatal("unknown K mode %q", mode)
+	}
+	defer func() { p.mode = "" }()
+	for _, dl := range []time.Duration{10 * time.Millisecond, 100 * time.Millisecond, time.Second} {
+		p.mode, p.deadline, p.ran, p.ctxErr, p.baseCancel = mode, dl, false, nil, nil
+		obs := p.call(val, err, mayLose)
+		if p.baseCancel != nil {
+			p.baseCancel()
+		}
+		if !p.ran {
+			if mode == "deadline" {
+				continue
+			}
+			return "E?handler-not-run:" + obs
+		}
+		if p.ctxErr != wantErr {
+			return fmt.Sprintf("E?ctx:%v", p.ctxErr)
+		}
+		return obs
+	}
+	return "E?handler-not-run"
 }
 
 func (p *c14Pair) stop() {
@@ -581,7 +673,14 @@ func c14GoodValue(label string) any {
 
 // ---- executing one case ------------------------------------------------------------------
 
-type c14Exec struct{ pair *c14Pair }
+type c14Exec struct{ pair, kpair *c14Pair }
+
+func (e *c14Exec) kp() *c14Pair {
+	if e.kpair == nil {
+		e.kpair = c14StartCtx(true)
+	}
+	return e.kpair
+}
 
 func (e *c14Exec) p() *c14Pair {
 	if e.pair == nil {
@@ -594,6 +693,10 @@ func (e *c14Exec) close() {
 	if e.pair != nil {
 		e.pair.stop()
 		e.pair = nil
+	}
+	if e.kpair != nil {
+		e.kpair.stop()
+		e.kpair = nil
 	}
 }
 
@@ -648,6 +751,10 @@ func (e *c14Exec) exec(f []string) []string {
 		val, rarg := c14Result(f[1], f[2])
 		t := c14Parse(f[3])
 		return []string{"R", f[1], rarg, f[3], e.p().call(val, t.build(), c14MayLose(t))}
+	case "K":
+		val, rarg := c14Result(f[2], f[3])
+		t := c14Parse(f[4])
+		return []string{"K", f[1], f[2], rarg, f[4], e.kp().callCtx(f[1], val, t.build(), c14MayLose(t))}
 	case "N":
 		val, rarg := c14Result(f[1], f[2])
 		t := c14Parse(f[3])
@@ -1069,6 +1176,57 @@ func c14Main(cfg *config) {
 	for _, raw := range []string{"1", " [1, 2] ", `{"a": "<b>"}`, "null", `"x"`} {
 		emit("R", "r", hexf(raw), "C(-32099)")
 		emit("R", "r", hexf(raw), "X")
+	}
+
+	// 6b. the handler returns after the context of its own request is done (cancelled by
+	// CancelRequest from the handler or a helper, through the NewContext base, or by the
+	// base's deadline): every leaf, every depth-1 term and the corpus, in the three
+	// cancellation modes; the representative leaves and their depth-1 terms under a deadline
+	// and on the same server with a live context; results (good, raw, unmarshalable) too.
+	kfast := []string{"self", "helper", "base"}
+	var kterms []*c14Term
+	kterms = append(kterms, c14AllLeaves()...)
+	kterms = append(kterms, d1...)
+	for _, ts := range []string{"L[X;C(5);]", "L[D;X;]", "W(77,L[P(70);K0(9,6b39);])", "W(77,K1(-32099,6b))", "J(7,6d,7b626164)",
+		"J(7,61ff62e280,-)", "J(7,6d,205b2022783c7922202c206e756c6c205d20)", "L[C(-32099);P(70);C(-32099);]", "L[K3(13,6b);X;]"} {
+		kterms = append(kterms, c14Parse(ts))
+	}
+	for _, t := range kterms {
+		for _, m := range kfast {
+			emit("K", m, "ok", "-", t.String())
+		}
+	}
+	kslow := append(append([]*c14Term{}, leaves...), d1[:2*len(leaves)+1]...)
+	if thorough {
+		kslow = kterms
+	}
+	for _, t := range kslow {
+		emit("K", "deadline", "ok", "-", t.String())
+		emit("K", "live", "ok", "-", t.String())
+	}
+	for _, m := range []string{"self", "helper", "base", "deadline", "live"} {
+		emit("K", m, "ok", "-", "C(-32099)")
+		emit("K", m, "ok", "-", "L[]")
+		for _, raw := range []string{"1", ` {"a": "<b>"} `} {
+			emit("K", m, "r", hexf(raw), "C(-32099)")
+			emit("K", m, "r", hexf(raw), "J(7,6d,31)")
+		}
+		for _, lab := range c14BadLabels[:3] {
+			emit("K", m, "u", lab, "C(-32099)")
+			emit("K", m, "u", lab, "K2(9,6b)")
+		}
+		for _, t := range []*c14Term{c14F(-32700, "p"), c14W("w", c14X), c14P("boom"), c14J(7, "boom", `{"a":1}`)} {
+			emit("K", m, "m", t.String(), "C(-32099)")
+			emit("K", m, "m", t.String(), "P(70)")
+		}
+	}
+	nk := 300
+	if thorough {
+		nk = 6000
+	}
+	for i := 0; i < nk; i++ {
+		t := c14RandTerm(r, 1+r.intn(4))
+		emit("K", kfast[r.intn(3)], "ok", "-", t.String())
 	}
 
 	// 7. WithData
